@@ -799,28 +799,28 @@ impl<'a> ArxmlParser<'a> {
                 regex,
                 max_length,
             } => {
-                if max_length.is_some() && trimmed_input.len() > max_length.unwrap() {
+                // the length limit and the pattern apply to the decoded value, which is what gets stored
+                // most of the regexes don't allow any of the escaped chars, but some do (e.g. the one of REVISION-LABEL ends with .*)
+                let text = match std::str::from_utf8(trimmed_input) {
+                    Ok(utf8string) => self.unescape_string(utf8string)?,
+                    Err(err) => {
+                        self.optional_error(ArxmlParserError::Utf8Error { source: err })?;
+                        String::from_utf8_lossy(trimmed_input)
+                    }
+                };
+                if max_length.is_some() && text.len() > max_length.unwrap() {
                     self.optional_error(ArxmlParserError::StringValueTooLong {
-                        value: String::from_utf8_lossy(trimmed_input).to_string(),
+                        value: text.to_string(),
                         length: max_length.unwrap(),
                     })?;
                 }
-                if !check_fn(trimmed_input) {
+                if !check_fn(text.as_bytes()) {
                     self.optional_error(ArxmlParserError::RegexMatchError {
-                        value: String::from_utf8_lossy(trimmed_input).to_string(),
+                        value: text.to_string(),
                         regex: (*regex).to_string(),
                     })?;
                 }
-                // most of the regexes don't allow any of the escaped chars, but some do (e.g. the one of REVISION-LABEL ends with .*)
-                match std::str::from_utf8(trimmed_input) {
-                    Ok(utf8string) => Ok(CharacterData::String(self.unescape_string(utf8string)?.into_owned())),
-                    Err(err) => {
-                        self.optional_error(ArxmlParserError::Utf8Error { source: err })?;
-                        Ok(CharacterData::String(
-                            String::from_utf8_lossy(trimmed_input).into_owned(),
-                        ))
-                    }
-                }
+                Ok(CharacterData::String(text.into_owned()))
             }
             CharacterDataSpec::String {
                 preserve_whitespace,
